@@ -96,7 +96,13 @@ def run_rules(mod, prop, tier, repo, units, extra_flags=(), outdir=None):
         shutil.rmtree(tmp, ignore_errors=True)
     depth = 1 if tier == 'quick' else 3
     ctx = Ctx(prog, prop, tier, depth)
-    mod.run(ctx)
+    ctx.error = None
+    try:
+        mod.run(ctx)
+    except qb.AnalysisBroken as ex:
+        ctx.error = str(ex)
+    except Exception:
+        ctx.error = 'internal error: ' + traceback.format_exc()[-1500:]
     return prog, ctx
 
 
@@ -153,6 +159,8 @@ def selftest_mutants(mod, prop, tier_units):
                 # config headers live in include/; copied with the tree
                 _prog, ctx = run_rules(mod, prop, 'quick', d, tier_units,
                                        outdir=None)
+                if ctx.error and not any(x['status'] == 'violation' for x in ctx.results):
+                    raise qb.AnalysisBroken(ctx.error)
             except qb.AnalysisBroken as ex:
                 # a mutant that makes an anchor vanish is still "noticed", but we
                 # want compiling mutants reported by a rule: count as problem
@@ -214,8 +222,11 @@ def main(argv):
             if u not in all_units:
                 raise qb.AnalysisBroken('unit %s is no longer part of the build (lib/Makefile.am)' % u)
         prog, ctx = run_rules(mod, prop, tier, qb.REPO, units)
+        if ctx.error:
+            broken.append(ctx.error)
         probs, counts = floors_ok(mod, ctx)
-        broken += probs
+        if not ctx.error:
+            broken += probs
         if tier == 'thorough':
             # alternative preprocessor configurations the module asks for
             for cfg in getattr(mod, 'ALT_CONFIGS', []):
@@ -225,6 +236,8 @@ def main(argv):
                     _p, c2 = run_rules(mod_for(cfg, mod), prop, tier, qb.REPO, cunits,
                                        extra_flags=cfg['flags'],
                                        outdir=None)
+                    if c2.error:
+                        raise qb.AnalysisBroken(c2.error)
                     for r in c2.results:
                         r['config'] = cfg['name']
                         if r['status'] != 'ok':
